@@ -63,6 +63,10 @@ CLAIMED = {
             'Bounded symbolic model checking with a virtual timer: for every delay >= 400 ms (any u64, incl. negative-as-i64) a delayed send delivers nothing when it executes, is registered under its send id, illegal delays / #_internal raise error.execution; <cancel> removes exactly that id in that session; firing delivers exactly once, with the argument values evaluated at execute time; dropping the session (timer) before the due time discards the event.',
             'Trusted: mirsym + virtual timer model of crate `timer`; real-time ordering is the timer crate. Outside: delay spellings, thread interleavings.',
             'DESIGN.md §4 C16'),
+    'C17': ('other', 'lock-order prediction: symbolic execution of every thread role (mirsym, holder-tracking mutex model) + z3 cycle query over the recorded acquisition edges',
+            'Not a deadlock-freedom proof. Every thread role of a 3-session scenario (host starting a session, the session thread, a session executing <send> with a solver-chosen target, the timer thread firing a delayed send, host send, child cancel, executor shutdown) is executed symbolically on the real code; each acquisition records the locks already held; z3 decides whether two acquisitions by different threads close a cycle without a common gate lock (GoodLock). unsat on all explored role paths = no lock-order inversion among them. Interleavings of real OS threads are not explored by this family of technique.',
+            'Trusted: the mutex model (lock/try_lock/guard drop from the drop-elaborated MIR), sequential composition of roles. One inversion (executor state vs I/O processor) was predicted, reproduced natively by harness/src/bin/stress_c17.rs and repaired (f2d726f).',
+            'DESIGN.md §4 C17'),
 }
 NA_REASON = {}
 
